@@ -14,7 +14,12 @@ package main
 
 import (
 	"bytes"
+	"encoding/json"
+	"flag"
 	"fmt"
+	"os"
+	"os/exec"
+	"path/filepath"
 	"runtime"
 	"sort"
 	"strconv"
@@ -996,6 +1001,9 @@ func runFreeMap(seed uint64, sh Shape, reset string, res *vh.Result) (nops int, 
 					continue
 				}
 				inv := clock.Add(1)
+				if rw.Chance(1, 2) {
+					runtime.Gosched() // invoked, not yet running: widens the overlap windows
+				}
 				a := apply(m, o)
 				ret := clock.Add(1)
 				mu.Lock()
@@ -1081,15 +1089,18 @@ func runFreeLocked(seed uint64, res *vh.Result) (int, int) {
 	var wg sync.WaitGroup
 	r0 := vh.NewRand(seed)
 	start := make(chan struct{})
-	for w := 0; w < 4; w++ {
+	for w := 0; w < 5; w++ {
 		rw := vh.NewRand(r0.U64())
 		wg.Add(1)
 		go func() {
 			defer wg.Done()
 			<-start
-			for i := 0; i < 5; i++ {
+			for i := 0; i < 4; i++ {
 				o := randLOp(rw)
 				inv := clock.Add(1)
+				if rw.Chance(2, 3) {
+					runtime.Gosched()
+				}
 				a := applyLocked(l, o)
 				ret := clock.Add(1)
 				mu.Lock()
@@ -1120,8 +1131,44 @@ func runFreeLocked(seed uint64, res *vh.Result) (int, int) {
 
 // ------------------------------------------------------------------ main
 
+func freeMain(o *vh.Opts, out string) {
+	res := vh.NewResult("free-running part")
+	r := vh.NewRand(o.Seed + 7777)
+	nfree := o.Pick(400, 8000)
+	for i := 0; i < nfree; i++ {
+		sh := shapes[i%len(shapes)]
+		reset := ""
+		switch i % 5 {
+		case 3:
+			reset = "empty"
+		case 4:
+			reset = "close"
+		}
+		n, ov := runFreeMap(r.U64(), sh, reset, res)
+		res.Count(fmt.Sprintf("free-%d", i), ov > 0)
+		res.Distribution["free-ops"] += n
+		res.Distribution["free-overlapping-pairs-same-key"] += ov
+		res.Dist("free-reset:" + reset)
+	}
+	for i := 0; i < o.Pick(150, 3000); i++ {
+		n, ov := runFreeLocked(r.U64(), res)
+		res.Count(fmt.Sprintf("freelocked-%d", i), ov > 0)
+		res.Distribution["free-locked-ops"] += n
+		res.Distribution["free-locked-overlapping-pairs"] += ov
+	}
+	b, _ := json.Marshal(res)
+	if err := os.WriteFile(out, b, 0o644); err != nil {
+		panic(err)
+	}
+}
+
 func main() {
+	freechild := flag.String("freechild", "", "internal: run the free-running part and write its result here")
 	o := vh.ParseFlags()
+	if *freechild != "" {
+		freeMain(o, *freechild)
+		return
+	}
 	res := vh.NewResult("A: forced schedules on ShardedMap (hash = key mod 2..4) through a parking newMap wrapper: invoke / leaf step / length update of up to 5 overlapping operations interleaved with Empty and Close, Len()/Map()/answers compared with the Coq model after every step; non-trivial = at least two operations in flight at once. B: sequential random histories of all 9 keyed operations on SingleLockedMap, ShardedMap 2..64, deep {4,4,4},{2,3},{2,2} vs the sequential map. C: sequential histories on Locked[int]. D: free-running goroutines on the same shapes and on Locked[int]: per-key linearizability search, Len() = number of keys after the operations finish (also with concurrent Empty/Close)")
 	if o.Replay != "" {
 		var rp struct {
@@ -1203,28 +1250,30 @@ func main() {
 		res.Count(fmt.Sprintf("locked-%d", i), true)
 	}
 	res.ModelCases = cases.Len()
-	// D
-	nfree := o.Pick(400, 8000)
-	for i := 0; i < nfree; i++ {
-		sh := shapes[i%len(shapes)]
-		reset := ""
-		switch i % 5 {
-		case 3:
-			reset = "empty"
-		case 4:
-			reset = "close"
-		}
-		n, ov := runFreeMap(r.U64(), sh, reset, res)
-		res.Count(fmt.Sprintf("free-%d", i), ov > 0)
-		res.Distribution["free-ops"] += n
-		res.Distribution["free-overlapping-pairs-same-key"] += ov
-		res.Dist("free-reset:" + reset)
+	// D: in a child process (a missing lock shows as "fatal error: concurrent map writes", which kills the process)
+	childOut := filepath.Join(o.Out, "free_result.json")
+	cmd := exec.Command(os.Args[0], "-seed", fmt.Sprint(o.Seed), "-tier", o.Tier, "-out", o.Out, "-n", fmt.Sprint(o.N), "-freechild", childOut)
+	var stderr bytes.Buffer
+	cmd.Stderr = &stderr
+	cerr := cmd.Run()
+	var child vh.Result
+	if b, err := os.ReadFile(childOut); err == nil {
+		_ = json.Unmarshal(b, &child)
 	}
-	for i := 0; i < o.Pick(150, 3000); i++ {
-		n, ov := runFreeLocked(r.U64(), res)
-		res.Count(fmt.Sprintf("freelocked-%d", i), ov > 0)
-		res.Distribution["free-locked-ops"] += n
-		res.Distribution["free-locked-overlapping-pairs"] += ov
+	if cerr != nil {
+		tail := stderr.String()
+		if len(tail) > 600 {
+			tail = tail[:600]
+		}
+		res.Fail("free-run-crashed", "the free-running part crashed: "+cerr.Error()+": "+tail, map[string]any{"free": "all", "seed": o.Seed})
+	}
+	res.Evaluations += child.Evaluations
+	res.DistinctNontrivial += child.DistinctNontrivial
+	for k, v := range child.Distribution {
+		res.Distribution[k] += v
+	}
+	for _, f := range child.Failures {
+		res.Fail(f.Class, f.Desc, f.Replay)
 	}
 	if err := cases.Write(o.Out); err != nil {
 		panic(err)
